@@ -2,7 +2,7 @@
 """dbg_broker.py <mode> <n> <seed>: run broker family, evaluate model, print first mismatching step."""
 import sys, json, subprocess, os, re
 mode, n, seed = sys.argv[1], sys.argv[2], sys.argv[3]
-out = subprocess.run(['/verif/harness/bin/wharness','broker','gen','-n',n,'-seed',seed,'-mode',mode],stdout=subprocess.PIPE,text=True).stdout
+out = subprocess.run(['/verif/harness/bin/wharness','broker','gen','-n',n,'-seed',seed,'-mode',mode],stdout=subprocess.PIPE,stderr=subprocess.DEVNULL,text=True).stdout
 cases=[json.loads(l) for l in out.splitlines()]
 os.makedirs('/verif/work/dbg',exist_ok=True)
 with open('/verif/work/dbg/cases.v','w') as f:
